@@ -64,7 +64,7 @@ static double det_lu(M a){
 /* ---- generators; every class returns a matrix with cond2 <= 1e6 (checked by the caller) ---- */
 static M with_sv(int m, int n, double cond, double scale){      /* U diag(s) V' with prescribed singular values */
   int k = m < n ? m : n; M u = rand_orth(m), v = rand_orth(n), s = mk(m, n);
-  for(int i = 0; i < k; i++) E(s,i,i) = scale * (k == 1 ? 1.0 : pow(cond, -(double)i / (k - 1)) * (vr_unif(&R) < 0.2 && i > 0 && i < k - 1 ? 1.0 : 1.0));
+  for(int i = 0; i < k; i++) E(s,i,i) = scale * (k == 1 ? 1.0 : pow(cond, -(double)i / (k - 1)));
   if(k > 2 && vr_unif(&R) < 0.3) E(s,1,1) = E(s,0,0);          /* repeated singular value */
   M us = mul(u, s), vt = tr(v), a = mul(us, vt); fr(u); fr(v); fr(s); fr(us); fr(vt); return a;
 }
@@ -225,7 +225,9 @@ int main(int argc, char **argv){
     double smax = 0, c = cond2(a, &smax);
     if(!(c <= 1e6)){ dropped++; fr(a); continue; }          /* outside the quantifier (singular or ill-conditioned): dropped, counted */
     VRT_EMIT("{\"e\":\"Reset\",\"id\":%d}", id);
-    VRT_EMIT("{\"e\":\"Mat\",\"id\":%d,\"class\":\"%s\",\"m\":%d,\"n\":%d,\"cond\":%ld,\"lead0\":%d,\"isint\":%d}", id, CLS[cls], n, n, (long)ceil(c), E(a,0,0) == 0.0 ? 1 : 0, is_int);
+    { static char mb[8192]; int p = snprintf(mb, sizeof mb, "{\"e\":\"Mat\",\"id\":%d,\"class\":\"%s\",\"m\":%d,\"n\":%d,\"cond\":%ld,\"lead0\":%d,\"isint\":%d", id, CLS[cls], n, n, (long)ceil(c), E(a,0,0) == 0.0 ? 1 : 0, is_int);
+      if(is_int){ p += snprintf(mb + p, sizeof mb - p, ",\"A\":"); emit_int_matrix(mb, sizeof mb, &p, a); }   /* integer input: lets the runner name the pivot class of a failure */
+      snprintf(mb + p, sizeof mb - p, "}"); VRT_EMIT("%s", mb); }
     M flag = mk(is_int ? 1 : 2, 1);
     job j; j.a = a; j.idx = id; j.shape = "square"; j.b = flag;
     j.what = J_INV; call(&j); j.what = J_LUINV; call(&j);
